@@ -382,6 +382,9 @@ def handle (j : Json) : P Json := do
         pure (Efp.Links.Op.setAttr (sl[0]!, sl[1]!) (← nat "v"))
       | "replace" => do pure (Efp.Links.Op.replace (← nat "old") (← nat "new"))
       | "detach" => do pure (Efp.Links.Op.detach (← nat "v"))
+      | "dictset" => do
+        let sl ← nats "slot"
+        pure (Efp.Links.Op.dictSet (sl[0]!, sl[1]!) (← nat "key") (← nat "v"))
       | m => throw s!"unknown links op {m}")
     -- run until the first error; report it with its position
     let rec go (s : Efp.Links.LS) (k : Nat) : List Efp.Links.Op → (Efp.Links.LS × Option (Nat × Efp.Links.LErr))
@@ -399,7 +402,7 @@ def handle (j : Json) : P Json := do
                       ("err", match err with
                         | none => Json.null
                         | some (k, e) => Json.mkObj [("at", Json.num (Int.ofNat k)), ("kind", match e with
-                          | .noId => "noId" | .otherContainer => "otherContainer" | .notAttached => "notAttached" | .badRef => "badRef")]),
+                          | .noId => "noId" | .otherContainer => "otherContainer" | .notAttached => "notAttached" | .badRef => "badRef" | .keyError => "keyError" | .multipleKeys => "multipleKeys")]),
                       ("mirror", Json.bool (Efp.Links.mirrorOk s)), ("slotOk", Json.bool (Efp.Links.slotOk s))])
   | "toggle" =>
     let content ← (← fl j "content").mapM (fun p => do
